@@ -62,3 +62,26 @@ func Key(seed uint64, i int) base.Privatekey {
 
 // Addr returns the i-th fixed node address.
 func Addr(i int) base.Address { return base.NewStringAddress(fmt.Sprintf("node%03d", i)) }
+
+// GateEncoder wraps an encoder; Gate (when set) is called at the start of every Marshal: an injectable yield
+// point between the Exists and the Put/Batch of TempPool.SetBallot / SetProposal / SetOperation.
+type GateEncoder struct {
+	encoder.Encoder
+	Gate func(v interface{})
+}
+
+func (g *GateEncoder) Marshal(v interface{}) ([]byte, error) {
+	if f := g.Gate; f != nil {
+		f(v)
+	}
+	return g.Encoder.Marshal(v)
+}
+
+// NewGatedPool returns a fresh TempPool whose write encoder is a GateEncoder.
+func NewGatedPool() (*isaacdatabase.TempPool, *GateEncoder) {
+	encs, enc := Encoders()
+	g := &GateEncoder{Encoder: enc}
+	p, err := isaacdatabase.NewTempPool(leveldbstorage.NewMemStorage(), encs, g, 0)
+	must(err)
+	return p, g
+}
